@@ -21,6 +21,8 @@ RULE = ("cases = (a) pairs of calls optimized.pairing(Q, P) / reference.pairing(
 ASSUMPTIONS = ["reference and optimized pairing are compared as field elements (coefficient tuples), which is what 'exactly the same field element' means"]
 CURVES = ["bn128", "bls12_381"]
 
+REPLAY_BY_SHARD = True
+
 
 def shards(tier):
     return 16
